@@ -274,8 +274,40 @@ func c07Gen(r *Rng, n int) []string {
 			}
 			m = map[string]interface{}{"a": items, "k": "x"}
 		}
+		lookAhead := r.P(6)
+		if lookAhead {
+			// an un-indexed key directly before an indexed one, and more below the index: several
+			// parents, each contributing several values
+			recs := func() []interface{} {
+				var l []interface{}
+				for i := 0; i < 1+r.Intn(3); i++ {
+					var tags []interface{}
+					for x := 0; x < 1+r.Intn(4); x++ {
+						tags = append(tags, fmt.Sprintf("t%d", x))
+					}
+					var tv interface{} = tags
+					if r.P(25) {
+						tv = "single"
+					}
+					l = append(l, map[string]interface{}{"tag": tv, "sub": []interface{}{map[string]interface{}{"tag": "s1"}, map[string]interface{}{"tag": "s2"}}})
+				}
+				return l
+			}
+			var items []interface{}
+			for i := 0; i < 2+r.Intn(3); i++ {
+				if r.P(15) {
+					items = append(items, "scalar member")
+				} else {
+					items = append(items, map[string]interface{}{"rec": recs()})
+				}
+			}
+			m = map[string]interface{}{"doc": map[string]interface{}{"item": items}}
+		}
 		for j := 0; j < 4; j++ {
 			path := r.DerivedPath(m, true, 5)
+			if lookAhead && r.P(80) {
+				path = r.Pick([]string{"doc.item.rec[0].tag", "doc.item.rec[1].tag", "doc.item.rec[0].sub.tag", "doc.item.rec[0].*", "doc.item.rec[0]", "doc.item.rec[0].sub[1].tag", "doc.item[1].rec[0].tag", "*.item.rec[0].tag"})
+			}
 			if _, wide := m["a"].([]interface{}); wide && len(m) == 2 && r.P(70) {
 				path = r.Pick([]string{"a.b", "a.c.b", "a.*.b", "*.b", "a.*", "a.b[1]", "a.c.b[0]"})
 			}
